@@ -113,7 +113,9 @@ class Transformer:
         :param task_type: the type of the task, i.e. whether it is a minimization or maximization task
         :return: an instance of EmpireModel class, i.e. the pydantic representation of the empire
         """
-        cost = empire.cost
+        # the reported agent is the emperor: its cost is the objective of its own position (the aggregated cost of the
+        # empire, colonies included, is only used for the competition between empires)
+        cost = empire.emperor.cost
         return EmpireModel(
             position=empire.emperor.representation, cost=cost, fitness=calculate_fitness(cost, task_type)
         )
